@@ -11,6 +11,7 @@
   `xs` is the ring `hd :: xs`.
 -/
 import IgrisModel.C01.Refine
+import IgrisModel.C01.Slist
 namespace Igris.C01
 
 /-- a history of the reference semantics -/
@@ -200,4 +201,25 @@ example : ARun [] [.cinit 0, .cinit 1, .cinit 2, .caddNext 1 0, .caddPrev 2 0, .
   -- [[0],[1]]
   refine .cons (.caddNextFree (lnk := 2) (head := 0) (ys := []) (B := [[1]]) (.refl _) (by simp [Free])) ?_
   exact .nil _
+end Igris.C01
+
+namespace Igris.C01
+/-! ### slist (igris/datastruct/slist.h) -/
+
+/-- traversal of a well-formed slist yields the reference sequence -/
+theorem slist_traversal (h : SHeap) (head : Nat) (xs : List Nat) (r : SRing h head xs) (fuel : Nat)
+    (hf : xs.length + 1 < fuel) : slistToList h fuel head = xs := slistToList_ring h head xs r fuel hf
+
+/-- `slist_add` / `add_first` puts a node that is not in the list in front; nothing else is written -/
+theorem slist_add_refines (h : SHeap) (link head : Nat) (xs : List Nat) (r : SRing h head xs)
+    (hl : link ∉ head :: xs) :
+    SRing (slistAdd h link head) head (link :: xs) ∧
+    (∀ y, y ∉ [link, head] → (slistAdd h link head).next y = h.next y) := slistAdd_ring h link head xs r hl
+
+/-- `slist_pop_first` unlinks and returns the first element, NULL on an empty list (state unchanged) -/
+theorem slist_pop_refines (h : SHeap) (head : Nat) :
+    (∀ x xs, SRing h head (x :: xs) →
+      (slistPopFirst h head).2 = some x ∧ SRing (slistPopFirst h head).1 head xs) ∧
+    (SRing h head [] → slistPopFirst h head = (h, none)) :=
+  ⟨fun x xs r => slistPopFirst_ring h head x xs r, slistPopFirst_empty h head⟩
 end Igris.C01
